@@ -163,7 +163,7 @@ func ruleFieldWidths(r *Run, rule string, k *serKind) {
 	}
 	bad := 0
 	for i := range wf {
-		if wf[i].Width != rf[i].Width {
+		if strings.TrimPrefix(wf[i].Width, "[]") != strings.TrimPrefix(rf[i].Width, "[]") {
 			bad++
 			r.Bad(rule, fmt.Sprintf("%s:field#%d", k.Name, i), w.Pos(rf[i].Pos)+" (*"+k.Name+").ReadFrom",
 				fmt.Sprintf("field %d: writer emits %s as %s (%s), reader decodes %s into %s (%s)", i, wf[i].Arg, wf[i].Width, w.Pos(wf[i].Pos), rf[i].Arg, rf[i].Width, w.Pos(rf[i].Pos)))
